@@ -131,6 +131,41 @@ def run(ctx):
         if not exact_terms_ok(out.terms, lo=30): ctx.stat('reverse_jw', 'discarded_inexact'); continue
         add('reverse_jw', '(fermi_pauli_equiv %s %s)' % (coq_fop(out), coq_qop(qop)),
             {'call': 'reverse_jordan_wigner', 'terms': {repr(t): repr(c) for t, c in qop.terms.items()}}, key=repr(qt))
+    # F. dual-basis jellium / plane-wave helpers: the direct qubit forms equal jordan_wigner of the fermionic model
+    #    (float coefficients compared as exact rationals, tolerance 1e-9), on cubic, rectangular and sheared cells
+    from fractions import Fraction
+    from openfermion.hamiltonians import (jordan_wigner_dual_basis_jellium, dual_basis_jellium_model, jordan_wigner_dual_basis_hamiltonian, plane_wave_hamiltonian)
+    EPS2 = cQ(Fraction(1, 10 ** 18))
+    cells = [(1, 3, 'f'), (2, 2, 'f'), (2, (3, 3), 's'), (2, (2, 3), 's'), (1, 4, 'f')] + ([] if ctx.quick else [(2, (3, 4), 's'), (2, (4, 3), 'd'), (3, 2, 's'), (1, 7, 'f'), (2, 3, 'f')])
+    for dim, length, kind in cells:
+        if kind == 'f': scale = rng.choice([1.0, 2.0, 0.75])
+        elif kind == 'd': scale = np.diag([rng.choice([1.0, 1.5, 2.0]) for _ in range(dim)])
+        else:
+            scale = np.diag([rng.choice([1.0, 1.25, 2.0]) for _ in range(dim)]).astype(float); scale[0, 1] = rng.choice([0.5, 0.25, -0.5])
+            if dim == 3: scale[1, 2] = rng.choice([0.5, -0.25])
+        grid = of.Grid(dim, length, scale)
+        for spinless in (True, False):
+            if grid.num_points * (1 if spinless else 2) > N(9, 16): continue
+            for const in (False, True):
+                jq = jordan_wigner_dual_basis_jellium(grid, spinless, const)
+                fm = dual_basis_jellium_model(grid, spinless, True, True, const)
+                add('jw_dual_basis_jellium', '(fermi_pauli_close %s %s %s)' % (EPS2, coq_fop(fm), coq_qop(jq)),
+                    {'call': 'jordan_wigner_dual_basis_jellium', 'grid': [dim, repr(length), kind], 'scale': repr(np.asarray(scale).tolist()), 'spinless': spinless, 'include_constant': const}, key=(dim, repr(length), kind, spinless, const))
+            if dim == 3 and isinstance(scale, float):
+                geometry = [('H', (0.0, 0.0, 0.0)), ('H', (0.0, 0.0, 0.5))]
+                jq = jordan_wigner_dual_basis_hamiltonian(grid, geometry, spinless, False)
+                fm = plane_wave_hamiltonian(grid, geometry, spinless, False, False)
+                add('jw_dual_basis_hamiltonian', '(fermi_pauli_close %s %s %s)' % (EPS2, coq_fop(fm), coq_qop(jq)),
+                    {'call': 'jordan_wigner_dual_basis_hamiltonian', 'grid': [dim, repr(length), kind], 'spinless': spinless}, key=(dim, repr(length), kind, spinless))
+    # the helper with a geometry (external potential) on a small cubic cell
+    for spinless in (True, False):
+        grid = of.Grid(3, 2, 1.0) if not ctx.quick or spinless else None
+        if grid is None: continue
+        geometry = [('H', (0.0, 0.0, 0.0)), ('H', (0.0, 0.0, 0.5))]
+        jq = jordan_wigner_dual_basis_hamiltonian(grid, geometry, spinless, False)
+        fm = plane_wave_hamiltonian(grid, geometry, spinless, False, False)
+        add('jw_dual_basis_hamiltonian', '(fermi_pauli_close %s %s %s)' % (EPS2, coq_fop(fm), coq_qop(jq)),
+            {'call': 'jordan_wigner_dual_basis_hamiltonian', 'grid': [3, 2, 'f'], 'spinless': spinless}, key=('geom', spinless))
     res = coq_eval_bools(ctx, 'jw', IMPORTS, items, chunk=40)
     judge(ctx, res, meta, 'C04')
 
